@@ -22,7 +22,9 @@ if "--tier" in a:
 src = "/tmp/seedout/" + tag
 if not os.path.exists(src + "/patch.diff"):
     src = os.path.join(V, "seeded", tag)
-env = dict(os.environ, GOFLAGS="-mod=mod", GOPROXY="off")
+os.makedirs("/var/tmp/svtmp", exist_ok=True)
+# existing filetransfer tests assume TMPDIR is not below /tmp (as in the baseline run)
+env = dict(os.environ, GOFLAGS="-mod=mod", GOPROXY="off", TMPDIR="/var/tmp/svtmp")
 wt = "/tmp/sv-" + tag
 subprocess.run(["git", "-C", "/repo", "worktree", "remove", "--force", wt], stderr=subprocess.DEVNULL)
 base = "HEAD"
